@@ -128,6 +128,10 @@ int main(int argc, char** argv) {
   add(def, P["cross"], true, {2}, 2, 1, 2, 4);
   add(def, P["cross"], true, {1, 1}, 2, 1, 2, 4);
   add(def, P["cross"], true, {1, 1, 1}, 3, -1, 1, 2);
+  add(def, P["abort-many"], true, {2}, 2, 1, 2, 4);
+  add(def, P["abort-many"], true, {1, 1}, 2, 1, 2, 4);
+  add(def, P["abort-many"], true, {3}, 3, 1, 1, 2);
+  add(def, P["abort-many"], true, {1, 1, 1}, 3, -1, 1, 2);
   add(def, P["vabort"], true, {2}, 2, 1, 2, 4);
   add(def, P["vabort"], true, {1, 1}, 2, 1, 2, 4);
   add(def, P["vabort"], true, {1, 1, 1}, 3, -1, 1, 2);
@@ -141,6 +145,7 @@ int main(int argc, char** argv) {
     }
     add(wls[i], P["cross"], true, {2}, 2, 1, 2, 3);
     add(wls[i], P["vabort"], true, {1, 1}, 2, -1, 2, 3);
+    add(wls[i], P["abort-many"], true, {2}, 2, i % 4 == 1 ? 1 : -1, 1, 2);
     add(wls[i], P["chain"], true, {2}, 2, -1, 1, 2);
   }
   // generated operator programs (see fe_generated_programs): the whole family
